@@ -9,6 +9,7 @@ import contextlib
 import json
 import logging
 from collections.abc import Callable
+from datetime import datetime, time, timedelta
 from enum import Enum
 from io import IOBase
 from typing import TYPE_CHECKING, Any, cast, get_origin
@@ -186,7 +187,7 @@ def _write_request(
     arrays: list[pa.Array[Any]] = []
     for f in params_schema:
         val = _convert_for_arrow(kwargs.get(f.name))
-        arrays.append(pa.array([val], type=f.type))
+        arrays.append(_scalar_array(val, f.type, f.name))
     batch = pa.RecordBatch.from_arrays(arrays, schema=params_schema)
     md: dict[bytes, bytes] = dict(extra_metadata) if extra_metadata else {}
     md[RPC_METHOD_KEY] = method_name.encode()
@@ -292,6 +293,26 @@ class _ClientLogSink:
         self._schema = None
 
 
+def _scalar_array(value: object, arrow_type: pa.DataType, name: str) -> pa.Array[Any]:
+    """Build the one-element Arrow array for a parameter or result, refusing lossy conversions.
+
+    pyarrow's converter silently truncates a non-integral ``float`` given for
+    an integer column and drops the sub-unit part of ``datetime`` / ``time`` /
+    ``timedelta`` values for second- and millisecond-resolution columns.  A
+    value the declared type cannot represent is an error, not something to
+    change on the caller's behalf.
+    """
+    arr = pa.array([value], type=arrow_type)
+    if isinstance(value, float) and pa.types.is_integer(arrow_type) and not value.is_integer():
+        raise TypeError(f"{name}: {value!r} cannot be represented as {arrow_type}")
+    if isinstance(value, (datetime, time, timedelta)) and pa.types.is_temporal(arrow_type):
+        back = arr[0].as_py()
+        comparable = not (isinstance(value, (datetime, time)) and (value.tzinfo is None) != (back.tzinfo is None))
+        if comparable and type(back) is type(value) and back != value:
+            raise TypeError(f"{name}: {value!r} cannot be represented as {arrow_type} without losing precision")
+    return arr
+
+
 def _build_result_batch(result_schema: pa.Schema, value: object) -> pa.RecordBatch:
     """Construct the unary result batch from a returned Python value.
 
@@ -302,7 +323,9 @@ def _build_result_batch(result_schema: pa.Schema, value: object) -> pa.RecordBat
     if len(result_schema) == 0:
         return pa.RecordBatch.from_pydict({}, schema=_EMPTY_SCHEMA)
     wire_value = _convert_for_arrow(value)
-    return pa.RecordBatch.from_arrays([pa.array([wire_value], type=result_schema.field(0).type)], schema=result_schema)
+    return pa.RecordBatch.from_arrays(
+        [_scalar_array(wire_value, result_schema.field(0).type, "result")], schema=result_schema
+    )
 
 
 def _write_result_batch(
